@@ -1,4 +1,5 @@
 (* C13 — Bad route definitions fail at registration; accepted ones never panic at lookup. Property theorems only. *)
+From Rux Require Import Base Str Norm Table PatTable TableLink Sys SysFacts SysHistory SysMore SysEnd.
 From Rux Require Import Base Str Norm NormFacts Consts Rx RxParse Pattern Cache Table TableFacts Reg RegFacts.
 
 (* rejected classes *)
@@ -55,6 +56,20 @@ Theorem C13_legacy_F05_refuted :
   end /\ compile_re f05_dyn = Panic.
 Proof. split; vm_compute; reflexivity. Qed.
 
+(* end to end (SysEnd.v): on a router built by a registration program whose routes are a printable table, EVERY request
+   - any '/'-free method, any path text whatever (format_path is total) - after any history is answered: the lookup
+   never panics, never meets an unsupported expression and never reports a route outside the table *)
+Theorem C13_end_to_end_total : forall progs hooks o ss s es h m p sc pooled,
+  sys_build o ss = Ok s -> table_of es s -> o_intercept o = [] ->
+  hist_no_slash h -> no_slash m ->
+  fst (sys_serve progs hooks (sys_run progs hooks s h) m p sc pooled) <> None.
+Proof. exact sys_total. Qed.
+
+Theorem C13_end_to_end_total_history : forall progs hooks o ss s es h,
+  sys_build o ss = Ok s -> table_of es s -> o_intercept o = [] -> hist_no_slash h ->
+  Forall (fun r => r <> None) (sys_outcomes progs hooks s h).
+Proof. exact sys_total_history. Qed.
+
 Print Assumptions C13_rejects_nil_handler.
 Print Assumptions C13_rejects_no_method.
 Print Assumptions C13_rejects_unknown_method.
@@ -67,3 +82,5 @@ Print Assumptions C13_wf_initial.
 Print Assumptions C13_wf_preserved.
 Print Assumptions C13_total_lookup.
 Print Assumptions C13_legacy_F05_refuted.
+Print Assumptions C13_end_to_end_total.
+Print Assumptions C13_end_to_end_total_history.
